@@ -1700,6 +1700,12 @@ class Authenticated(BaseClientHandler):
         # We use the idling hack so EXPUNGE notifications are delivered
         # immediately to this client.
         #
+        # Anything that was queued for this client while the messages were
+        # copied (eg: the flags of the new messages when the destination is
+        # the selected mailbox itself) refers to message sequence numbers
+        # from before the expunge, so it has to go out before the EXPUNGEs.
+        #
+        await self.send_pending_notifications()
         expunge_cmd = IMAPClientCommand("A001 EXPUNGE")
         expunge_cmd.command = IMAPCommand.EXPUNGE
         try:
